@@ -17,6 +17,7 @@
    observes the hooks end to end). *)
 From Coq Require Import List Arith NArith ZArith Bool String Lia.
 From Dae Require Import C01_Spec C01_Model C01_Props C02_Spec C02_Model C02_Props.
+From Dae Require C02_Proofs.
 From Dae.gen Require Import C02_Consts.
 From Dae Require Import Link_C02_C10 Link_C01_C02.
 Import ListNotations.
@@ -193,14 +194,18 @@ Proof.
   - apply land_one_b2n.
 Qed.
 
-Lemma unpack_kernel_route : forall km d q o m mu,
-  decode_word (k_route (with_domain_map km d) (kargs_of_query q)) = Some (o, m, mu) ->
-  (0 <= kernel_route km d q)%Z /\ unpack (kernel_route km d q) = (o, m, b2n mu).
+Definition triple3 (x : C01_Spec.decision) : N * N * N := let '(o, m, mu) := x in (o, m, b2n mu).
+
+Lemma unpack_kernel_route : forall km d q x,
+  decode_word (k_route (with_domain_map km d) (kargs_of_query q)) = Some x ->
+  (0 <= kernel_route km d q)%Z /\ unpack (kernel_route km d q) = triple3 x.
 Proof.
-  intros km d q o m mu H. unfold kernel_route.
+  intros km d q x H. unfold kernel_route.
   destruct (k_route (with_domain_map km d) (kargs_of_query q)) as [w|e]; [|discriminate].
-  cbn [zword decode_word] in *. injection H as <- <- <-. split; [lia|].
-  unfold unpack. rewrite N2Z.id. f_equal; [f_equal|].
+  cbn [zword]. split; [lia|].
+  pose proof (f_equal (fun o => match o with Some y => y | None => (0, 0, false) end) H) as Hx.
+  cbv beta iota delta [decode_word] in Hx. subst x.
+  unfold unpack, triple3. rewrite N2Z.id. f_equal; [f_equal|].
   - change 0xffffffff with (N.ones 32). now rewrite N.land_ones.
   - apply land_one_b2n.
 Qed.
@@ -300,3 +305,228 @@ Proof.
   rewrite He. exact (Link_C03_route_is_first_match p b prev alloc km d dm _ dom hits (query_wf_spec e pkt true) R).
 Qed.
 Print Assumptions Link_C03_new_flow_verdict_wan.
+
+(* ---------- the four named verdict theorems of C03, with the oracle discharged ---------- *)
+(* Each is the C03 theorem itself (used as stated), its premise `decide (e_route e (query e p wan)) = Some d` supplied
+   by Link_C03_route_is_first_match: d IS the first-matching-rule decision of the program as written. *)
+Section NamedVerdicts.
+  Variables (p : program) (b : builder) (prev : kmaps) (alloc : N) (km : kmaps)
+            (d : list N -> option (list N)) (dm : string -> list N) (dom : string) (hits : list string).
+  Variables (P : param) (e : env) (st : kstate) (eth : bool) (proto : N) (pf : bool) (lin : N) (f : frame).
+  Hypothesis Hinv : inv st.
+  Hypothesis Hnow : 0 < e_now e.
+  Hypothesis Hsyn : fresh_syn eth proto f.
+  Hypothesis Hroute : e_route e = kernel_route km d.
+  Let pkt := classify (parse_slow eth proto f).
+
+  Lemma lan_decision : routed p b prev alloc km d dm (query e pkt false) dom hits ->
+    C03_Spec.decide (e_route e (query e pkt false)) = Some (first_match_decision p e pkt false dom hits).
+  Proof. intro R. rewrite Hroute. exact (Link_C03_route_is_first_match p b prev alloc km d dm _ dom hits (query_wf_spec e pkt false) R). Qed.
+  Lemma wan_decision : routed p b prev alloc km d dm (query e pkt true) dom hits ->
+    C03_Spec.decide (e_route e (query e pkt true)) = Some (first_match_decision p e pkt true dom hits).
+  Proof. intro R. rewrite Hroute. exact (Link_C03_route_is_first_match p b prev alloc km d dm _ dom hits (query_wf_spec e pkt true) R). Qed.
+
+  Theorem Link_C03_direct_passes :
+    (routed p b prev alloc km d dm (query e pkt false) dom hits ->
+     let D := first_match_decision p e pkt false dom hits in
+     d_out D = OUT_DIRECT -> fresh_lan P e st eth proto pf lin f = Pass (Some (d_mark D))) /\
+    (routed p b prev alloc km d dm (query e pkt true) dom hits -> wan_local P e ->
+     let D := first_match_decision p e pkt true dom hits in
+     d_out D = OUT_DIRECT -> d_mark D = 0 -> fresh_wan P e st eth proto pf lin f = Pass (Some 0)).
+  Proof.
+    split.
+    - intros R D Ho. exact (proj1 (C03_direct_passes P e st eth proto pf lin f D Hinv Hnow Hsyn Ho) (lan_decision R)).
+    - intros R Hw D Ho Hm. exact (proj2 (C03_direct_passes P e st eth proto pf lin f D Hinv Hnow Hsyn Ho) Hw (wan_decision R) Hm).
+  Qed.
+
+  Theorem Link_C03_block_drops :
+    (routed p b prev alloc km d dm (query e pkt false) dom hits ->
+     d_out (first_match_decision p e pkt false dom hits) = OUT_BLOCK -> fresh_lan P e st eth proto pf lin f = Drop) /\
+    (routed p b prev alloc km d dm (query e pkt true) dom hits -> wan_local P e ->
+     d_out (first_match_decision p e pkt true dom hits) = OUT_BLOCK -> fresh_wan P e st eth proto pf lin f = Drop).
+  Proof.
+    split.
+    - intros R Ho. exact (proj1 (C03_block_drops P e st eth proto pf lin f _ Hinv Hnow Hsyn Ho) (lan_decision R)).
+    - intros R Hw Ho. exact (proj2 (C03_block_drops P e st eth proto pf lin f _ Hinv Hnow Hsyn Ho) Hw (wan_decision R)).
+  Qed.
+
+  Theorem Link_C03_dead_group_drops :
+    (routed p b prev alloc km d dm (query e pkt false) dom hits ->
+     let D := first_match_decision p e pkt false dom hits in
+     d_out D <> OUT_BLOCK -> d_out D <> OUT_DIRECT ->
+     group_alive e (d_out D) (k_proto (p_key pkt) =? IPPROTO_UDP) (k_dport (p_key pkt)) = false ->
+     fresh_lan P e st eth proto pf lin f = Drop) /\
+    (routed p b prev alloc km d dm (query e pkt true) dom hits -> wan_local P e ->
+     let D := first_match_decision p e pkt true dom hits in
+     d_out D <> OUT_BLOCK -> (d_out D =? OUT_DIRECT) && (d_mark D =? 0) = false ->
+     group_alive e (d_out D) (k_proto (p_key pkt) =? IPPROTO_UDP) (k_dport (p_key pkt)) = false ->
+     fresh_wan P e st eth proto pf lin f = Drop).
+  Proof.
+    split.
+    - intros R D Hb Hd Ha. exact (proj1 (C03_dead_group_drops P e st eth proto pf lin f D Hinv Hnow Hsyn Hb Ha) Hd (lan_decision R)).
+    - intros R Hw D Hb Hd Ha. exact (proj2 (C03_dead_group_drops P e st eth proto pf lin f D Hinv Hnow Hsyn Hb Ha) Hw Hd (wan_decision R)).
+  Qed.
+
+  Theorem Link_C03_proxy_redirects_with_record :
+    (routed p b prev alloc km d dm (query e pkt false) dom hits ->
+     let D := first_match_decision p e pkt false dom hits in
+     d_out D <> OUT_BLOCK -> d_out D <> OUT_DIRECT ->
+     group_alive e (d_out D) (k_proto (p_key pkt) =? IPPROTO_UDP) (k_dport (p_key pkt)) = true ->
+     fresh_lan P e st eth proto pf lin f = ToDae (P_peer P) IPPROTO_TCP (the_record e pkt D false)) /\
+    (routed p b prev alloc km d dm (query e pkt true) dom hits -> wan_local P e ->
+     let D := first_match_decision p e pkt true dom hits in
+     d_out D <> OUT_BLOCK -> (d_out D =? OUT_DIRECT) && (d_mark D =? 0) = false ->
+     group_alive e (d_out D) (k_proto (p_key pkt) =? IPPROTO_UDP) (k_dport (p_key pkt)) = true ->
+     fresh_wan P e st eth proto pf lin f = ToDae false IPPROTO_TCP (the_record e pkt D true)).
+  Proof.
+    split.
+    - intros R D Hb Hd Ha. exact (proj1 (C03_proxy_redirects_with_record P e st eth proto pf lin f D Hinv Hnow Hsyn Hb Ha) Hd (lan_decision R)).
+    - intros R Hw D Hb Hd Ha. exact (proj2 (C03_proxy_redirects_with_record P e st eth proto pf lin f D Hinv Hnow Hsyn Hb Ha) Hw Hd (wan_decision R)).
+  Qed.
+End NamedVerdicts.
+Print Assumptions Link_C03_direct_passes.
+Print Assumptions Link_C03_block_drops.
+Print Assumptions Link_C03_dead_group_drops.
+Print Assumptions Link_C03_proxy_redirects_with_record.
+
+(* ---------- the refinement theorem, with route() := the kernel scan ---------- *)
+(* C03_hooks_refine_spec holds for every environment; instantiated at the kernel route it says: the hook models, with
+   the MODELLED KERNEL SCAN over the installed match-sets as their route(), return the verdict / record / table of the
+   specification whose rule program is that same scan *)
+Theorem Link_C03_hooks_refine_spec_kernel_route :
+  forall km d P e0 st eth proto pf lin f,
+    let e := with_route e0 (kernel_route km d) in
+    inv st -> 0 < e_now e0 ->
+    let r := parse_transport eth proto pf lin f in
+    let pkt := classify (parse_slow eth proto f) in
+    let t := abs_conn (ks_conn st) in
+    (let h := lan_ingress P e st (parse_packet r) in
+     observe h (p_key pkt) (e_now e) = fst (spec_lan_ingress P e t pkt) /\
+     abs_conn (ks_conn (h_st h)) = snd (spec_lan_ingress P e t pkt) /\ inv (h_st h)) /\
+    (let h := wan_egress P e st (parse_packet r) in
+     observe h (p_key pkt) (e_now e) = fst (spec_wan_egress false P e t pkt) /\
+     abs_conn (ks_conn (h_st h)) = snd (spec_wan_egress false P e t pkt) /\ inv (h_st h)).
+Proof.
+  intros km d P e0 st eth proto pf lin f e Hi Hnow r pkt t.
+  destruct (C03_hooks_refine_spec P e st eth proto pf lin f Hi Hnow) as [H1 [H2 _]]. split; [exact H1 | exact H2].
+Qed.
+Print Assumptions Link_C03_hooks_refine_spec_kernel_route.
+
+(* ---------- sticky decision: what is stored at the SYN is the first-matching-rule decision, and it stays ---------- *)
+Theorem Link_C03_sticky_first_match :
+  forall p b prev alloc km d dm dom hits P e st pk steps,
+    pp_l4 pk = IPPROTO_TCP -> tcp_flags_new (pp_tcp pk) = true -> k_proto (pp_key pk) = IPPROTO_TCP ->
+    e_route e = kernel_route km d ->
+    routed p b prev alloc km d dm (rquery_of e pk false 0) dom hits ->
+    let X := dns_adjust (k_dport (pp_key pk)) (C01_Spec.decide p (pk_of_query (rquery_of e pk false 0) dom hits)) in
+    let st1 := h_st (lan_ingress P e st (0%Z, Some pk)) in
+    (* the SYN stores the decision of the first matching rule of the program installed at that moment ... *)
+    dec_of (ks_conn st1) (pp_key pk) = Some (triple3 X) /\
+    (* ... and after ANY later packets (any hooks, flows, frames, clocks, health bits and ANY rule programs installed
+       later) that neither restart the flow nor find it idle beyond the timeout, it is still that decision *)
+    (quiet_all P st1 steps (pp_key pk) -> dec_of (ks_conn (run_steps P st1 steps)) (pp_key pk) = Some (triple3 X)).
+Proof.
+  intros p b prev alloc km d dm dom hits P e st pk steps Hl Hn Hk He R X st1.
+  assert (Hq : query_wf (rquery_of e pk false 0)) by apply rquery_of_wf.
+  assert (Hdec : decode_word (k_route (with_domain_map km d) (kargs_of_query (rquery_of e pk false 0))) = Some X).
+  { destruct Hq as (H1 & H2 & H3). unfold kargs_of_query.
+    exact (kernel_route_fields_program p b prev alloc km d dm _ _ _ _ _ _ _ _ _ _ dom hits H1 H2 H3
+             (rt_wf _ _ _ _ _ _ _ _ _ _ R) (rt_lower _ _ _ _ _ _ _ _ _ _ R) (rt_install _ _ _ _ _ _ _ _ _ _ R)
+             (rt_probe _ _ _ _ _ _ _ _ _ _ R) (rt_bitmap _ _ _ _ _ _ _ _ _ _ R) (rt_oracle _ _ _ _ _ _ _ _ _ _ R)
+             (rt_entry _ _ _ _ _ _ _ _ _ _ R)). }
+  destruct (unpack_kernel_route km d _ X Hdec) as [Hpos Hun].
+  assert (H1 : dec_of (ks_conn st1) (pp_key pk) = Some (triple3 X)).
+  { unfold st1. rewrite (C03_sticky_decision_first_packet P e st pk Hl Hn); rewrite He; [now rewrite Hun | exact Hpos]. }
+  split; [exact H1|]. intro Hquiet. exact (C03_sticky_decision P steps st1 (pp_key pk) _ Hk H1 Hquiet).
+Qed.
+Print Assumptions Link_C03_sticky_first_match.
+
+(* ---------- what `rt_probe` asks, in the query's own terms ---------- *)
+Lemma bytes_be_small : forall n a, forallb (fun x => x <? 256) (bytes_be n a) = true.
+Proof.
+  induction n as [|n IH]; intros a; [reflexivity|]. cbn [bytes_be]. rewrite forallb_app, IH. cbn [forallb].
+  rewrite andb_true_r. apply N.ltb_lt. apply N.mod_lt. discriminate.
+Qed.
+
+(* C02's quantifier `probe_ok` for a hook's query: the field ranges any parsed frame has (16-byte addresses, 16-bit
+   ports, 6-byte MAC, 8-bit DSCP) — which C03's parse model (wf_parse) does not state: reported as a spec gap — and the
+   alphabet of the name the control plane associates with the flow.  The clause "a LAN packet carries no process name"
+   needs nothing: the LAN hook passes pname = 0. *)
+Theorem Link_probe_ok_of_ranges : forall q dom hits,
+  q_sip q < 2 ^ 128 -> q_dip q < 2 ^ 128 -> q_sport q < 65536 -> q_dport q < 65536 ->
+  q_mac q < 2 ^ 48 -> q_dscp q < 256 -> (q_wan q =? 1 = false -> q_pname q = 0) ->
+  domain_alphabet_ok dom = true ->
+  probe_ok (pk_of_query q dom hits) (q_wan q =? 1) = true.
+Proof.
+  intros q dom hits Hs Hd Hsp Hdp Hm Hds Hpn Ha. unfold probe_ok, wf_packet, pk_of_query, pk_of_fields.
+  cbn [C01_Spec.p_domain C01_Spec.p_src C01_Spec.p_dst C01_Spec.p_sport C01_Spec.p_dport C01_Spec.p_pname
+       C01_Spec.p_mac C01_Spec.p_dscp].
+  rewrite Ha, C02_Proofs.length_bytes_be, bytes_be_small.
+  apply N.ltb_lt in Hs, Hd, Hsp, Hdp, Hm, Hds. rewrite Hs, Hd, Hsp, Hdp, Hm, Hds. cbn [andb Nat.eqb].
+  destruct (q_wan q =? 1); [reflexivity|]. rewrite (Hpn eq_refl). reflexivity.
+Qed.
+Print Assumptions Link_probe_ok_of_ranges.
+
+Lemma lan_query_no_pname : forall e pk, q_wan (rquery_of e pk false 0) =? 1 = false /\ q_pname (rquery_of e pk false 0) = 0.
+Proof. intros. split; reflexivity. Qed.
+
+(* ---------- non-vacuity ---------- *)
+(* Program: `dport(443) -> proxy` (group id 2), fallback direct.  Installed from scratch at ring offset 0; no domain
+   entries.  A pure SYN 10.0.0.2:40000 -> 1.2.3.4:443 (DSCP 46, source MAC 02:00:00:00:00:02) at LAN ingress with group
+   2 alive: every premise of the composed theorems holds, the first matching rule says (2, 0, false), route() over the
+   installed bytes returns that word, and the hook redirects to dae with the record (2, 0, 0), DSCP 46 and the MAC; a
+   SYN to port 80 passes with mark 0 (fallback direct); with group 2 dead the 443 SYN is dropped. *)
+Definition ex_prog : program :=
+  {| pr_rules := [ {| r_conds := [ {| c_kind := FPort; c_neg := false; c_params := [(0, VRange 443 443)] |} ];
+                      r_out := {| o_name := "proxy"; o_params := [] |} |} ];
+     pr_fallback := {| o_name := "direct"; o_params := [] |};
+     pr_groups := [("direct"%string, 0); ("proxy"%string, 2)] |}.
+Definition ex_key (dport : N) : fkey := mk_fkey 0xffff0a000002 0xffff01020304 40000 dport 6.
+Definition ex_syn (dport : N) : ppkt :=
+  mk_ppkt 0x0800 0x020000000002 (ex_key dport) 46 (mk_tcp 40000 dport true false false false) 6 6.
+Definition ex_env (km : kmaps) (alive : list (N * N)) : env :=
+  mk_env 5000 true 0 0 None None alive (kernel_route km (fun _ => None)).
+Definition ex_dm : string -> list N := fun _ => repeat 0 32.
+
+Lemma ex_oracle : forall pk, C01_domain_oracle_agrees ex_prog ex_dm pk.
+Proof. intros pk b Hb. vm_compute in Hb. inversion Hb; subst. intros i key vals []. Qed.
+
+Example Link_C03_C02_nonvacuous :
+  exists b km,
+    lower_program ex_prog = Ok b /\ install empty_kmaps (b_rules b) (b_tries b) 0 = Ok km /\
+    let e := ex_env km [(12, 1)] in
+    let q := rquery_of e (ex_syn 443) false 0 in
+    routed ex_prog b empty_kmaps 0 km (fun _ => None) ex_dm q "" [] /\
+    C01_Spec.decide ex_prog (pk_of_query q "" []) = (2, 0, false) /\
+    C03_Spec.decide (e_route e q) = Some (mk_dec 2 0 0) /\
+    observe (lan_ingress (mk_param 77 0 false) e (mk_ks [] []) (0%Z, Some (ex_syn 443))) (ex_key 443) 5000
+      = ToDae false 6 (mk_frec (mk_dec 2 0 0) 46 0x020000000002 0 0) /\
+    dec_of (ks_conn (h_st (lan_ingress (mk_param 77 0 false) e (mk_ks [] []) (0%Z, Some (ex_syn 443))))) (ex_key 443)
+      = Some (2, 0, 0) /\
+    observe (lan_ingress (mk_param 77 0 false) e (mk_ks [] []) (0%Z, Some (ex_syn 80))) (ex_key 80) 5000 = Pass (Some 0) /\
+    observe (lan_ingress (mk_param 77 0 false) (ex_env km []) (mk_ks [] []) (0%Z, Some (ex_syn 443))) (ex_key 443) 5000 = Drop.
+Proof.
+  eexists. eexists. split; [vm_compute; reflexivity|]. split; [vm_compute; reflexivity|].
+  cbv zeta. split.
+  { constructor; try (vm_compute; reflexivity). apply ex_oracle. }
+  repeat split; vm_compute; reflexivity.
+Qed.
+
+(* DISCHARGED: the rule-program oracle `e_route` of C03's hook models and specification.  With route() := C02's k_route
+     over the bytes buildRoutingKernspace installs (kernel_route), every query a hook makes is answered with dns_adjust
+     of C01's first-matching-rule `decide` of the program as written (Link_C03_route_is_first_match; for an arbitrary
+     installed match-set array: the userspace matcher's answer, Link_C03_route_is_kernel_scan).  Hence the verdict of a
+     NEW flow at LAN ingress / WAN egress is the specification's verdict of that decision (Link_C03_new_flow_verdict_lan /
+     _wan, and the four named theorems), the refinement theorem holds with the modelled scan as route(), and the
+     decision a connection sticks to is the first-matching-rule decision at SYN time (Link_C03_sticky_first_match).
+   THE ARGUMENTS: C03's hook model abstracts the arguments of route() into `rquery`; kargs_of_query is the byte-level
+     layout and Link_kargs_of_query_packet proves it equal to C02's kargs_of of the packet description with the same
+     fields for every query the hook model or the specification can make (rquery_of_wf, query_wf_spec).  Not covered by
+     either model: the C statements that fill `params` from the skb.
+   REMAINING (record `routed`): wf_program / lower / install succeed (Link_C01_C02.Link_install_total: <= 1024
+     match-sets); rt_probe = C02's quantifier (Link_probe_ok_of_ranges: field ranges of the parsed frame, which C03's
+     wf_parse does not state, + name alphabet); rt_bitmap; and the two interfaces other links discharge: rt_oracle
+     (C01/C11: Link_C01_C11.c01_oracle_discharged) and rt_entry (C02/C10: the domain_routing_map entry of the
+     destination is the bitmap of the name the description carries; Link_C02_C10, Link_C02_C10_Ctl_C11).
+   NOTE: dns_adjust — a flow to port 53 not covered by a must rule is answered with outbound 253 (control-plane routing);
+     the verdict theorems are stated on that adjusted decision, as the kernel returns it. *)
